@@ -118,6 +118,10 @@ namespace cs
         : Held<Inner>(std::forward<A>(a)...), RawComp<Outer, Composable>(this->inner)
         {
         }
+        bool move_assign_from(Comp&) override
+        {
+            return false; // the reference points at the object held next to it
+        }
     };
     static CompReg r_refal("ref_aligned_A", [](Env& e) -> Comp* {
         return named(new HeldComp<AlA, fm::allocator_reference<AlA>, false>(e.min_align, LeafA(&e.leaf[0])),
